@@ -259,7 +259,13 @@ fn walk(tr: &mut Tracer, rng: &mut Rng, gen: &mut MoveGenerator, start: Board, p
     let mut last_own: [Option<ChessMove>; 2] = [None, None];
     // in half of the long games kings and rooks stay at home for the first 66-95 plies, so that castling
     // rights are still held -- and then lost -- deep into the history (stacks longer than any fixed window)
-    let protect = if style != "walk" && (keep_home || rng.chance(1, 2)) { 66 + rng.below(30) } else { 0 };
+    let protect = if plies >= 1000 && keep_home {
+        plies * 6 / 10 // marathon games: rights are still held (and then lost) beyond ply 600
+    } else if style != "walk" && (keep_home || rng.chance(1, 2)) {
+        66 + rng.below(30)
+    } else {
+        0
+    };
     for step in 0..plies {
         // undo burst
         if !h.stack.is_empty() && rng.chance(1, if style == "walk" { 9 } else if style == "clock" { 80 } else { 25 }) {
@@ -421,7 +427,7 @@ fn scripted(tr: &mut Tracer, gen: &mut MoveGenerator, start: Board, moves: &[&st
     }
 }
 
-pub const SCRIPTS: [(&str, &str, &str); 10] = [
+pub const SCRIPTS: [(&str, &str, &str); 12] = [
     ("rook-takes-rook-then-recurrence", "r3k2r/8/8/8/8/8/8/R3K2R b KQkq -", "h8g8 a1a8 e8e7 a8a7 e7e8 a7a8 e8e7 a8a7 e7e8 a7a8"),
     ("rook-takes-rook-then-recurrence-black", "r3k2r/8/8/8/8/8/8/R3K2R w KQkq -", "h1g1 a8a1 e1e2 a1a2 e2e1 a2a1 e1e2 a1a2 e2e1 a2a1"),
     ("knight-shuffle-threefold", "rnbqkbnr/pppppppp/8/8/8/8/PPPPPPPP/RNBQKBNR w KQkq -", "g1f3 g8f6 f3g1 f6g8 g1f3 g8f6 f3g1 f6g8"),
@@ -432,6 +438,9 @@ pub const SCRIPTS: [(&str, &str, &str); 10] = [
     ("queen-triangulation", "4k3/8/8/8/8/8/8/3QK3 w - -", "d1d2 e8f8 d2d3 f8e8 d3d1 e8f8 d1d2 f8e8 d2d3 e8f8 d3d1 f8e8"),
     ("both-rights-lost-by-king-walk", "r3k2r/8/8/8/8/8/8/R3K2R w KQkq -", "e1e2 e8e7 e2e1 e7e8 e1e2 e8e7 e2e1 e7e8"),
     ("fourfold-after-uncounted", "4k3/8/8/8/8/8/8/4K1N1 w - -", "g1f3 e8d8 f3g1 d8e8 g1f3 e8d8 f3g1 d8e8 g1f3"),
+    // the third occurrence arises with the side to move in check
+    ("perpetual-check", "1k6/p1p5/8/8/8/8/4Q3/7K w - -", "e2b5 b8a8 b5c6 a8b8 c6b5 b8a8 b5c6 a8b8 c6b5 b8a8"),
+    ("perpetual-check-black", "7k/4q3/8/8/8/8/P1P5/1K6 b - -", "e7b4 b1a1 b4c3 a1b1 c3b4 b1a1 b4c3 a1b1 c3b4 b1a1"),
 ];
 
 pub fn parse_fen(fen: &str) -> Pos {
@@ -550,7 +559,7 @@ pub fn main(args: &[String]) {
                 // castling available at once on both wings, pawns about to meet: rights are lost, en passant
                 // arises, and undo bursts come back to positions in which castling is legal
                 parse_fen(CASTLE_READY[rng.below(CASTLE_READY.len())]).setup()
-            } else if seeds.is_empty() || (scenario == "walk" && g % 3 == 0) || (scenario == "clock" && g % 4 == 2) {
+            } else if seeds.is_empty() || (scenario == "walk" && g % 3 == 0) || (scenario == "clock" && (g % 4 == 2 || plies >= 1000)) {
                 Board::starting_position()
             } else {
                 let p = &seeds[rng.below(seeds.len())];
@@ -562,7 +571,7 @@ pub fn main(args: &[String]) {
                     p.setup()
                 }
             };
-            let from_start = scenario == "clock" && g % 4 == 2;
+            let from_start = scenario == "clock" && (g % 4 == 2 || plies >= 1000);
             // the board's own getters are called unguarded while events are written: if one of them panics
             // (a corrupted history stack), the history ends with a Crash event instead of taking the recorder down
             if let Err(p) = guarded(|| walk(&mut tr, &mut rng, &mut gen, start, plies, &scenario, from_start)) {
